@@ -80,6 +80,20 @@ Print Assumptions C07_concrete.
 (* ---- the tie to phasegen/distributions.py by translation: PhaseTypeDistribution._accumulate (gen/LoopsGen.v is regenerated from
         the source on every run; proofs/GenLoopsEquiv.v proves it equal to the model's accumulate_raw; analysis/SourceLoops.v
         transports the analytic facts) ---- *)
+(* ---- the SOURCE of Demography.get_epochs / get_epoch (phasegen/demography.py, pinned on every run by translate/demography2coq.py into
+   gen/DemographyGen.v): for every list of times >= 0 (any order, repeats) the i-th epoch returned is the epoch that contains the i-th
+   time - the value for that time alone -, whenever the epochs tile [0, oo) ---- *)
+From PG Require Import gen.NpConfigs gen.NpDemography gen.DemographyGen proofs.GenDemographyEquiv.
+Theorem C07_demography_py_get_epochs_pointwise : forall e it ts,
+  tiles 0 (e :: it) -> Forall (fun t => (0 <= t)%Q) ts ->
+  Demography_get_epochs (e :: it) ts = map (fun t => first_in t (e :: it)) ts.
+Proof. exact gen_get_epochs_pointwise. Qed.
+Theorem C07_demography_py_get_epoch_contains_its_time : forall e it t,
+  tiles 0 (e :: it) -> (0 <= t)%Q -> in_ep t (Demography_get_epoch (e :: it) t) = true.
+Proof. exact gen_get_epoch_contains. Qed.
+Print Assumptions C07_demography_py_get_epochs_pointwise.
+Print Assumptions C07_demography_py_get_epoch_contains_its_time.
+
 From Coq Require Import QArith Reals.
 From mathcomp Require Import all_ssreflect all_algebra.
 From PG Require Import analysis.Rstruct analysis.RSums analysis.MExp analysis.MExpLaws.
